@@ -3,7 +3,13 @@
 //! the child's answer, `abort` (child died) or `hang` (no answer within the time-out).
 use std::io::{BufRead, BufReader, Write};
 use std::process::{Child, ChildStdin, Command, Stdio};
+use std::sync::atomic::{AtomicUsize, Ordering};
 use std::sync::mpsc::{Receiver, RecvTimeoutError, channel};
+
+/// Number of cases of this run that ended as `hang`.  Once `HANG_BUDGET` cases have hung, the remaining cases are not
+/// executed (`skipped-after-hangs`): the property has failed anyway, and every further hang costs two time-outs.
+static HANGS: AtomicUsize = AtomicUsize::new(0);
+const HANG_BUDGET: usize = 8;
 use std::time::Duration;
 
 struct Worker {
@@ -43,6 +49,10 @@ fn run_slice(engine: &str, rlimit: Option<u64>, timeout_ms: u64, lines: &[String
     let mut outs = Vec::with_capacity(lines.len());
     let mut w = spawn(engine, rlimit);
     for line in lines {
+        if HANGS.load(Ordering::Relaxed) >= HANG_BUDGET {
+            outs.push("skipped-after-hangs".to_string());
+            continue;
+        }
         // A time-out is retried once in a fresh child: a stall of the whole machine (all workers timing out at the
         // same instant) must not be reported as a hang of the code under test. A real hang times out twice.
         let mut attempt = 0;
@@ -65,6 +75,9 @@ fn run_slice(engine: &str, rlimit: Option<u64>, timeout_ms: u64, lines: &[String
                     if matches!(e, RecvTimeoutError::Timeout) && attempt == 0 {
                         attempt += 1;
                         continue;
+                    }
+                    if matches!(e, RecvTimeoutError::Timeout) {
+                        HANGS.fetch_add(1, Ordering::Relaxed);
                     }
                     outs.push(match e {
                         RecvTimeoutError::Timeout => "hang".to_string(),
